@@ -1306,7 +1306,12 @@ def mangle_mako_loop(node, printer):
     node.accept_visitor(loop_variable)
     if loop_variable.detected:
         node.nodes[-1].has_loop_context = True
-        match = _FOR_LOOP.match(node.text)
+        # leave a trailing comment out, the way ast.PythonFragment does
+        text = node.text.strip()
+        m = re.match(r"^(\w+)(?:\s+(.*?))?:\s*(#|$)", text, re.S)
+        if m and m.group(3):
+            text = text[: m.start(3)]
+        match = _FOR_LOOP.match(text)
         if match:
             printer.writelines(
                 "loop = __M_loop._enter(%s)" % match.group(2),
